@@ -313,6 +313,61 @@ C18Laws ==
                 /\ (ReadsStdin(n, ah) \/ r.out = r.out)
 
 (***************************************************************************)
+(* C12: the loader on every sequence of <= MaxBlocks definitions           *)
+(***************************************************************************)
+Defs ==
+  { [k |-> "set", v |-> 0], [k |-> "set", v |-> 4096], [k |-> "set", v |-> 65535],
+    [k |-> "def", label |-> "a", dir |-> "db", form |-> "num", v |-> 255],
+    [k |-> "def", label |-> "b", dir |-> "dw", form |-> "num", v |-> 4660],
+    [k |-> "def", label |-> "", dir |-> "db", form |-> "zero", n |-> 3],
+    [k |-> "def", label |-> "c", dir |-> "dw", form |-> "fill", v |-> 65534, n |-> 2],
+    [k |-> "def", label |-> "d", dir |-> "db", form |-> "str", bytes |-> <<104, 105>>],
+    [k |-> "def", label |-> "e", dir |-> "dw", form |-> "str", bytes |-> <<104, 105>>],
+    [k |-> "def", label |-> "", dir |-> "db", form |-> "zero", n |-> 65535],
+    [k |-> "def", label |-> "f", dir |-> "db", form |-> "fill", v |-> 7, n |-> 20] }
+DefSeqs == UNION {[1 .. n -> Defs] : n \in 0 .. MaxBlocks}
+
+InitC12 ==
+  /\ mode = "c12" /\ steps = 0 /\ rstack = << >> /\ pos = << >> /\ d = << >>
+  /\ \E ds \in DefSeqs : P = [data |-> ds, items |-> <<Lab("start")>>, interp |-> FALSE, stdin |-> << >>]
+
+\* independent reading of the property: walk the definitions keeping the running offset per segment
+RECURSIVE Walk(_, _, _, _)
+Walk(data, j, seg, off) ==      \* sequence of [seg, off, len, item] for the definitions
+  IF j > Len(data) THEN << >>
+  ELSE IF data[j].k = "set" THEN Walk(data, j + 1, data[j].v, 0)
+  ELSE <<[seg |-> seg, off |-> off, len |-> ItemLen(data[j]), it |-> data[j]]>> \o Walk(data, j + 1, seg, off + ItemLen(data[j]))
+
+C12Layout ==
+  mode = "c12" =>
+    LET LL == Load(P)
+        ws == Walk(P.data, 1, 0, 0)
+    IN \* every label = offset of the first byte of its (last) definition within its segment
+       /\ \A j \in 1 .. Len(ws) : (ws[j].it.label # "" /\ \A i \in j + 1 .. Len(ws) : ws[i].it.label # ws[j].it.label)
+                                     => LL.labels[ws[j].it.label] = ws[j].off
+       \* contiguity: a definition starts where the previous one of the same segment run ended
+       /\ \A j \in 1 .. Len(ws) - 1 : (ws[j + 1].off # 0) => ws[j + 1].off = ws[j].off + ws[j].len /\ ws[j + 1].seg = ws[j].seg
+       \* the bytes of the LAST definition are in memory exactly (nothing later overwrote them)
+       /\ (ws # << >> =>
+             LET z == ws[Len(ws)]
+                 bs == ItemBytes(z.it)
+             IN \A i \in 1 .. (IF Len(bs) > 40 THEN 40 ELSE Len(bs)) :
+                  LET a == (z.seg * 16 + z.off + i - 1) % MB
+                  IN (IF a \in DOMAIN LL.mem THEN LL.mem[a] ELSE 0) = bs[i])
+       \* words are stored low byte first; DW strings one zero-extended word per character
+       /\ ItemBytes([k |-> "def", label |-> "", dir |-> "dw", form |-> "num", v |-> 4660]) = <<52, 18>>
+       /\ ItemBytes([k |-> "def", label |-> "", dir |-> "dw", form |-> "str", bytes |-> <<65, 66>>]) = <<65, 0, 66, 0>>
+       /\ ItemBytes([k |-> "def", label |-> "", dir |-> "db", form |-> "str", bytes |-> <<65, 66>>]) = <<65, 66>>
+       \* every stored byte is non-zero (the image lists only what differs from the all-zero memory) and in range
+       /\ \A a \in DOMAIN LL.mem : a \in 0 .. MB - 1 /\ LL.mem[a] \in 1 .. 255
+       \* exceeding 64 KiB in a segment is flagged
+       /\ LL.over = (\E j \in 1 .. Len(ws) : ws[j].off + ws[j].len > 65536)
+       \* the machine starts with DS = 0 whatever SET said
+       /\ BootMachine(LL.mem).regs["ds"] = 0
+
+SpecC12 == InitC12 /\ [][FALSE]_vars
+
+(***************************************************************************)
 SpecC08 == InitC08 /\ [][NextRun]_vars
 SpecC20 == InitC20 /\ [][NextRun20]_vars /\ WF_vars(NextRun20)
 SpecLaws == InitLaws /\ [][FALSE]_vars
